@@ -231,8 +231,15 @@ func (b *bloomcache) hasCached(k cid.Cid) (has bool, ok bool) {
 		// in case of invalid key is forwarded deeper
 		return false, false
 	}
-	if b.BloomActive() {
-		blr := b.bloom.Load().HasTS(k.Hash())
+	// Load the filter before and after reading the active flag. Rebuild clears
+	// the flag and then swaps in an empty filter; without the second load a
+	// lookup that saw active == true just before that could consult the new,
+	// still unpopulated filter and report a stored block as missing. If the
+	// pointer did not change around the flag read, the flag belongs to this
+	// filter, which was therefore completely populated.
+	bl := b.bloom.Load()
+	if b.BloomActive() && b.bloom.Load() == bl {
+		blr := bl.HasTS(k.Hash())
 		if !blr { // not contained in bloom is only conclusive answer bloom gives
 			b.hits.Inc()
 			return false, true
